@@ -7,6 +7,7 @@ import (
 	"io"
 	"strings"
 	"time"
+	"verif/checks/streamx"
 
 	"github.com/jsightapi/jsight-schema-go-library/formats/json"
 
@@ -18,7 +19,7 @@ func init() {
 	ev.Register(&ev.Check{
 		ID:             "C06",
 		Level:          "exploration",
-		Rule:           "inputs: (i) every valid JSON text among ALL strings <= 5 (thorough 6) symbols over the 30-class alphabet; (ii) ALL JSON values with <= 4 (5) nodes over 10 scalar forms rendered with every placement of <= 2 (3) gaps from {space, tab, LF, CRLF} over all inter-token positions; (iii) all 2^8 object/array nestings of depth 8, flat containers of width 1..8, numbers ending at end of input, every single-character escape and every \\uXXXX escape with each hex digit from {0,9,a,F} in strings and keys. Oracle on the public NextLexeme stream: properly nested, terminated by io.EOF, spans inside the input, literal/key spans == reference token spans, container spans bracket to bracket, value rebuilt from events alone == reference parse; cross-scanner: schema scanner and (arrays of scalars) enum scanner via verif hooks yield the same (type, begin, end) sequence modulo new-line events. States/transitions = distinct (event-type stack) configurations of the replayed event automaton and steps between them. Non-trivial = distinct valid text with >= 2 events.",
+		Rule:           "inputs: (i) every valid JSON text among ALL strings <= 5 (thorough 6) symbols over the 30-class alphabet; (ii) ALL JSON values with <= 4 (5) nodes over 10 scalar forms rendered with every placement of <= 2 (3) gaps from {space, tab, LF, CRLF} over all inter-token positions; (iii) all 2^8 object/array nestings of depth 8, flat containers of width 1..8, numbers ending at end of input, every single-character escape and every \\uXXXX escape with each hex digit from {0,9,a,F} in strings and keys. Oracle on the public NextLexeme stream: properly nested, terminated by io.EOF, spans inside the input, literal/key spans == reference token spans, container spans bracket to bracket, value rebuilt from events alone == reference parse; cross-scanner: schema scanner and (arrays of scalars) enum scanner via verif hooks yield the same (type, begin, end) sequence modulo new-line events. (iv) pairs of small documents read in turns through NextLexeme: in ALL merges of the two call sequences each document delivers the events it delivers alone. States/transitions = distinct (event-type stack) configurations of the replayed event automaton and steps between them. Non-trivial = distinct valid text with >= 2 events.",
 		Run:            run,
 		Replay:         replay,
 		QuickBudget:    80 * time.Second,
@@ -362,6 +363,8 @@ func run(c *ev.Ctx) {
 	if c.Shard == 0 {
 		families(c)
 	}
+	// two documents read in turns: every merge of the two call sequences
+	streamx.Run(c)
 }
 
 var scalarForms = []string{"0", "-1.5", "1e2", `"a"`, `"é"`, `"\n\"\\"`, `""`, "true", "false", "null"}
@@ -524,6 +527,11 @@ func families(c *ev.Ctx) {
 }
 
 func replay(raw stdjson.RawMessage) (bool, string) {
+	var sx streamx.Case
+	if err := stdjson.Unmarshal(raw, &sx); err == nil && sx.Kind == "streams" {
+		d := streamx.RunMerge(sx)
+		return d != "", d
+	}
 	var cs caseT
 	if err := stdjson.Unmarshal(raw, &cs); err != nil {
 		return false, err.Error()
